@@ -284,6 +284,8 @@ def _wchunk(chunk):
                     return agg
                 continue
             fold(agg, cid, case, r)
+            if ci % 25 == 0:
+                gc.collect()     # automatic collection is off: release file handles held by cycles
         gc.collect()
     return agg
 
